@@ -143,10 +143,9 @@ inline Number parseNumber(const char* s) {
     uint8_t digit = uint8_t(*s - '0');
     if (mantissa > maxUint / 10)
       break;
-    mantissa *= 10;
-    if (mantissa > maxUint - digit)
+    if (mantissa * 10 > maxUint - digit)
       break;
-    mantissa += digit;
+    mantissa = mantissa * 10 + digit;
     s++;
   }
 
